@@ -8,19 +8,20 @@ import (
 
 // Profile steers the operation mix of generated cases.
 type Profile struct {
-	Prop             string
-	MinOps, MaxOps   int
-	MinKeys          int
-	MaxKeys          int
-	W                map[string]int // weight per op type
-	Tree             bool
-	Files            bool
-	Poison           bool
-	SlowFlushPercent int
-	DetPercent       int // percentage of cases with deterministic layout (wait for idle after every write)
-	MaxVal           int
-	Comparers        []string
-	Tweak            func(t *rapid.T, o *gen.OptSpec)
+	Prop              string
+	MinOps, MaxOps    int
+	MinKeys           int
+	MaxKeys           int
+	W                 map[string]int // weight per op type
+	Tree              bool
+	Files             bool
+	Poison            bool
+	SlowFlushPercent  int
+	SlowRemovePercent int
+	DetPercent        int // percentage of cases with deterministic layout (wait for idle after every write)
+	MaxVal            int
+	Comparers         []string
+	Tweak             func(t *rapid.T, o *gen.OptSpec)
 }
 
 func drawRange(t *rapid.T, nkeys int) (s, l *int) {
@@ -84,6 +85,9 @@ func Draw(t *rapid.T, p *Profile) *Case {
 	nk := len(c.Keys)
 	if p.SlowFlushPercent > 0 {
 		c.SlowFlush = rapid.SampledFrom([]int{5, 15, 25, 35, 45, 55, 65, 75, 85, 95}).Draw(t, "slowflush") < p.SlowFlushPercent
+	}
+	if p.SlowRemovePercent > 0 {
+		c.SlowRemove = rapid.SampledFrom([]int{5, 15, 25, 35, 45, 55, 65, 75, 85, 95}).Draw(t, "slowremove") < p.SlowRemovePercent
 	}
 	c.Det = rapid.SampledFrom([]int{5, 15, 25, 35, 45, 55, 65, 75, 85, 95}).Draw(t, "det") < p.DetPercent
 	var kinds []string
@@ -153,6 +157,10 @@ func Draw(t *rapid.T, p *Profile) *Case {
 		case "churn":
 			op.K = rapid.IntRange(0, nk-1).Draw(t, "k")
 			op.Slot = rapid.SampledFrom([]int{20, 20, 60, 300}).Draw(t, "churnn")
+			if st := rapid.SampledFrom([]int{0, 0, 5, 7}).Draw(t, "churnstride"); st > 0 {
+				op.S = &st
+				op.V.Len = rapid.SampledFrom([]int{2, 2, 3}).Draw(t, "churnparts")
+			}
 		case "scan":
 			op.Src = rapid.SampledFrom([]string{"db", "db", "snap", "tr"}).Draw(t, "src")
 			op.Slot = rapid.IntRange(0, 5).Draw(t, "slot")
@@ -171,4 +179,4 @@ func Draw(t *rapid.T, p *Profile) *Case {
 
 var opOrder = []string{"put", "del", "batch", "bigbatch", "get", "has", "compact", "reopen", "idle",
 	"snap", "snapget", "snaprel", "iter", "iterwalk", "iterrel", "scan",
-	"tropen", "trget", "trcommit", "trdiscard", "churn"}
+	"tropen", "trget", "trcommit", "trdiscard", "churn", "recover"}
